@@ -1774,3 +1774,59 @@ VARIANTS += [
  dict(name='p5-lookup-decoder-with-several-results-wrong-position', expect='flagged(lookup/exactly-one-blob)',
       **p5(P5_CALL_MULTI, sub(P5_MULTI, 'image.Annotations, image.Layers, nil', 'image.Annotations, []ocispec.Descriptor{image.Config}, nil'))),
 ]
+
+# guard campaign (pushNotationManifestConfig): the error of the config upload. A failed Push of the config blob that is
+# not reported lets PushSignature pack — and oci.Store accept — a manifest whose config is not in the store, behind a
+# success (push/config-stored: cut set over the helper's success exits).
+GM_PUSH = '\tif err := pusher.Push(ctx, notationEmptyConfigDesc, bytes.NewReader(notationEmptyConfigData)); err != nil && !errors.Is(err, errdef.ErrAlreadyExists) {\n'
+GM_TAIL = '\t\treturn ocispec.Descriptor{}, fmt.Errorf("unable to push: %s: %s. Details: %w", notationEmptyConfigDesc.Digest.String(), notationEmptyConfigDesc.MediaType, err)\n\t}\n\treturn notationEmptyConfigDesc, nil\n}\n'
+GM_COND = 'err != nil && !errors.Is(err, errdef.ErrAlreadyExists)'
+GM_CALL = 'pusher.Push(ctx, notationEmptyConfigDesc, bytes.NewReader(notationEmptyConfigData))'
+GM_FAIL = '\t\treturn ocispec.Descriptor{}, fmt.Errorf("unable to push: %s: %s. Details: %w", notationEmptyConfigDesc.Digest.String(), notationEmptyConfigDesc.MediaType, err)\n'
+VARIANTS += [
+ dict(name='gm-config-push-error-false-conjunct', file=R, expect='flagged(push/config-stored)',
+      find=GM_PUSH, replace=sub(GM_PUSH, GM_COND, 'false && (' + GM_COND + ')'),
+      why='a failed upload of the config blob is answered with success: the manifest packed next names a config that is not in the store'),
+ dict(name='gm-config-push-error-realistic-conjunct', file=R, expect='flagged(push/config-stored)',
+      find=GM_PUSH, replace=sub(GM_PUSH, GM_COND, 'len(notationEmptyConfigData) > 2 && ' + GM_COND),
+      why='the config data is the two bytes "{}": the added conjunct is never true'),
+ dict(name='gm-config-push-error-nested-inner-disabled', file=R, expect='flagged(push/config-stored)',
+      find=GM_PUSH + GM_TAIL,
+      replace='\tif err := ' + GM_CALL + '; err != nil {\n\t\tif false && !errors.Is(err, errdef.ErrAlreadyExists) {\n\t' + GM_FAIL + '\t\t}\n\t}\n\treturn notationEmptyConfigDesc, nil\n}\n'),
+ dict(name='gm-config-push-error-predicate-too-permissive', file=R, expect='flagged(push/config-stored)',
+      find=GM_PUSH + GM_TAIL,
+      replace=sub(GM_PUSH, GM_COND, '!configStored(err)') + GM_TAIL + '\nfunc configStored(err error) bool {\n\treturn err == nil || errors.Is(err, errdef.ErrAlreadyExists) || len(notationEmptyConfigData) <= 2\n}\n'),
+ dict(name='gm-config-push-error-wrong-sentinel', file=R, expect='flagged(push/config-stored)',
+      find=GM_PUSH, replace=sub(GM_PUSH, 'errdef.ErrAlreadyExists', 'errdef.ErrNotFound'),
+      why='"not found" is not "already there"'),
+ dict(name='gm-config-push-error-dropped', file=R, expect='flagged(push/config-stored)',
+      find=GM_PUSH + GM_TAIL,
+      replace='\t_ = ' + GM_CALL + '\n\treturn notationEmptyConfigDesc, nil\n}\n\nvar _ = errors.New\nvar _ = errdef.ErrNotFound\n'),
+ # the same guard, spelled differently
+ dict(name='benign-gm-config-push-error-nested-ifs', file=R, expect='silent',
+      find=GM_PUSH + GM_TAIL,
+      replace='\tif err := ' + GM_CALL + '; err != nil {\n\t\tif !errors.Is(err, errdef.ErrAlreadyExists) {\n\t' + GM_FAIL + '\t\t}\n\t}\n\treturn notationEmptyConfigDesc, nil\n}\n'),
+ dict(name='benign-gm-config-push-error-operands-swapped', file=R, expect='silent',
+      find=GM_PUSH, replace=sub(GM_PUSH, GM_COND, '!errors.Is(err, errdef.ErrAlreadyExists) && nil != err')),
+ dict(name='benign-gm-config-push-error-accepting-predicate', file=R, expect='silent',
+      find=GM_PUSH + GM_TAIL,
+      replace=sub(GM_PUSH, GM_COND, '!configStored(err)') + GM_TAIL + '\nfunc configStored(err error) bool {\n\treturn err == nil || errors.Is(err, errdef.ErrAlreadyExists)\n}\n'),
+ dict(name='benign-gm-config-push-error-refusing-predicate', file=R, expect='silent',
+      find=GM_PUSH + GM_TAIL,
+      replace=sub(GM_PUSH, GM_COND, 'configPushFailed(err)') + GM_TAIL + '\nfunc configPushFailed(err error) bool {\n\tif err == nil {\n\t\treturn false\n\t}\n\treturn !errors.Is(err, errdef.ErrAlreadyExists)\n}\n'),
+ dict(name='benign-gm-config-push-error-switch', file=R, expect='silent',
+      find=GM_PUSH + GM_TAIL,
+      replace='\terr = ' + GM_CALL + '\n\tswitch {\n\tcase err == nil:\n\tcase errors.Is(err, errdef.ErrAlreadyExists):\n\tdefault:\n' + GM_FAIL + '\t}\n\treturn notationEmptyConfigDesc, nil\n}\n'),
+ dict(name='benign-gm-config-push-error-boolean-local', file=R, expect='silent',
+      find=GM_PUSH + GM_TAIL,
+      replace='\terr = ' + GM_CALL + '\n\tstored := err == nil || errors.Is(err, errdef.ErrAlreadyExists)\n\tif !stored {\n' + GM_FAIL + '\t}\n\treturn notationEmptyConfigDesc, nil\n}\n'),
+ dict(name='benign-gm-config-push-error-handed-up', file=R, expect='silent',
+      find=GM_PUSH + GM_TAIL,
+      replace='\treturn notationEmptyConfigDesc, ' + GM_CALL + '\n}\n\nvar _ = errors.New\nvar _ = errdef.ErrNotFound\n',
+      why='the upload\'s own error is the helper\'s error: the caller\'s test of it (push/options/config) is the test of the upload; "already exists" after a negative Exists is then refused, which is stricter'),
+ # the two other guards of the helper, disabled: behaviour-preserving for the property (an existence test that is never
+ # believed, or whose error is ignored, leads to the Push, whose own answer decides)
+ dict(name='benign-gm-config-exists-never-believed', file=R, expect='silent',
+      find='\tif exists {\n\t\treturn notationEmptyConfigDesc, nil\n', replace='\tif false && (exists) {\n\t\treturn notationEmptyConfigDesc, nil\n',
+      why='the config is then always pushed; "already exists" is tolerated: every success exit still knows the blob is there'),
+]
